@@ -23,6 +23,7 @@ import (
 	_ "verifsim/h/kvs"
 	_ "verifsim/h/master"
 	_ "verifsim/h/mdata"
+	_ "verifsim/h/node"
 	_ "verifsim/h/pipe"
 	_ "verifsim/h/repl"
 	_ "verifsim/h/walq"
@@ -68,6 +69,7 @@ func TestWorker(t *testing.T) {
 		start, _ := strconv.ParseInt(env("VERIF_SEED_START", "1"), 10, 64)
 		count, _ := strconv.Atoi(env("VERIF_SEED_COUNT", "1"))
 		keepPlan := env("VERIF_KEEP_PLANS", "") != ""
+		warmUp(t, h, prop)
 		for i := 0; i < count; i++ {
 			seed := start + int64(i)
 			plan := core.GenPlan(h, prop, seed, tier)
@@ -97,6 +99,7 @@ func TestWorker(t *testing.T) {
 		if h == nil {
 			t.Fatalf("unknown harness %q", plan.Harness)
 		}
+		warmUp(t, h, plan.Prop)
 		res := core.Execute(t, h, plan)
 		res.Plan = plan
 		fmt.Fprintln(w, core.MarshalLine(res))
@@ -107,6 +110,7 @@ func TestWorker(t *testing.T) {
 		}
 		h := core.Get(plan.Harness)
 		budget, _ := strconv.Atoi(env("VERIF_SHRINK_RUNS", "400"))
+		warmUp(t, h, plan.Prop)
 		small, res, runs := core.Shrink(t, h, plan, env("VERIF_SIG", ""), budget)
 		res.Plan = small
 		res.Probes = map[string]int{"shrink_runs": runs}
@@ -114,6 +118,16 @@ func TestWorker(t *testing.T) {
 	default:
 		t.Fatalf("unknown VERIF_MODE %q", mode)
 	}
+}
+
+// warmUp executes one throw-away run. The first run of a process differs from every later one (lazy
+// package state: sync.Once, caches, first-use initialisation take other paths and other yield counts), so
+// without it a plan found as the k-th run of a batch would not replay as the first run of a fresh process.
+func warmUp(t *testing.T, h core.Harness, prop string) {
+	if os.Getenv("VERIF_NO_WARMUP") != "" {
+		return
+	}
+	core.Execute(t, h, core.GenPlan(h, prop, 0, "quick"))
 }
 
 var _ = rand.Int
